@@ -542,6 +542,8 @@ type Endpoint struct {
 	// WriteStall, when set before traffic starts, is asked after every transmission how long the writing
 	// goroutine is held up inside the socket write (fault: blocking send).
 	WriteStall func() time.Duration
+	// CloseErr, when set, is what the first Close returns (the endpoint is closed all the same).
+	CloseErr error
 }
 
 // Addr builds a simulated address.
@@ -672,7 +674,7 @@ func (ep *Endpoint) Close() error {
 	err := error(&net.OpError{Op: "close", Net: "udp", Err: net.ErrClosed})
 	ep.once.Do(func() {
 		close(ep.closed)
-		err = nil
+		err = ep.CloseErr // (fault: the socket is closed, and close(2) reports an error)
 	})
 	return err
 }
